@@ -154,8 +154,11 @@ int main(void)
     } else {
 	CHECK(!ref_ok, "C19: a string with the documented syntax and within the limits is accepted");
 #if (NSTR + ROOT) / 2 > ATTR_PATH_COMP_MAX
-	WITNESS(refn > ATTR_PATH_COMP_MAX, "too many components rejected");
+#if NSTR > ATTR_PATH_NAME_MAX
 	WITNESS(refn >= 0 && strlen(in) > ATTR_PATH_NAME_MAX, "over-long name rejected");
+#else
+	WITNESS(refn > ATTR_PATH_COMP_MAX && strlen(in) <= ATTR_PATH_NAME_MAX, "too many components - in a string within the length limit - rejected");
+#endif
 #endif
 	WITNESS(refn < 0, "malformed string rejected");
     }
